@@ -472,6 +472,43 @@ parse_parameters(const string &args, size_t &p,
 }
 
 /**
+ * Returns true if the apostrophe at position p of str is a digit separator
+ * within a number (1'000) rather than the start of a character literal.
+ */
+static bool
+is_digit_separator(const string &str, size_t p) {
+  size_t q = p;
+  while (q > 0 && (isalnum(str[q - 1]) || str[q - 1] == '_' ||
+                   str[q - 1] == '.' || str[q - 1] == '\'')) {
+    --q;
+  }
+  // A number starts with a digit, or with a period followed by a digit.
+  return q < p && (isdigit(str[q]) ||
+                   (str[q] == '.' && q + 1 < p && isdigit(str[q + 1])));
+}
+
+/**
+ * Given the position of the opening quote of a string or character literal,
+ * returns the position just past its closing quote (or the end of the string
+ * if it is unterminated).
+ */
+static size_t
+skip_literal(const string &str, size_t p) {
+  char quote = str[p];
+  ++p;
+  while (p < str.size() && str[p] != quote) {
+    if (str[p] == '\\' && p + 1 < str.size()) {
+      ++p;
+    }
+    ++p;
+  }
+  if (p < str.size()) {
+    ++p;
+  }
+  return p;
+}
+
+/**
  *
  */
 void CPPManifest::
@@ -509,6 +546,12 @@ save_expansion(Expansion &expansion, const string &exp, const vector_string &par
           int start = ++p;
           int nesting = 1;
           while (p < exp.size() && nesting > 0) {
+            if (exp[p] == '"' ||
+                (exp[p] == '\'' && !is_digit_separator(exp, p))) {
+              // Parentheses inside a literal do not count.
+              p = skip_literal(exp, p);
+              continue;
+            }
             if (exp[p] == '(') {
               ++nesting;
             }
@@ -554,6 +597,13 @@ save_expansion(Expansion &expansion, const string &exp, const vector_string &par
         paste = false;
         last = p;
       }
+    } else if (exp[p] == '"' ||
+               (exp[p] == '\'' && !is_digit_separator(exp, p))) {
+      // A string or character literal is a single token.  Its contents are
+      // not parameters, operators or white space to be normalized, so skip
+      // to the closing quote and keep the spelling as it is.
+      p = skip_literal(exp, p);
+
     } else if (exp[p] == '#') {
       // This may be a stringification operator.
       if (last != p) {
